@@ -71,6 +71,6 @@ Definition frame_obs (f : aframe) : list obs :=
   | BUnsubscribe pid props fs => [ON pid; OL (map OS fs); OL (ppairs props)]
   | BPing => []
   | BDisc _ rc props =>
-    if af_type f =? 14 then [ON rc; OL (ppairs props)]
+    if af_type f =? 14 then [ON rc; pnum 17 props; pstr 31 props; pstr 28 props; OL (ppairs props)]
     else [ON rc; pstr 31 props; pstr 21 props; pstr 22 props; OL (ppairs props)]
   end.
